@@ -2,6 +2,7 @@
 from ..paths import PathEnumerator
 from ..guards import fv
 from ..terms import TermBuilder, fmt, mk, const, subterms, contains
+from ..terms import callee_is as _nm
 from ..guards import panic_sites, atomic_facts, int_bounds
 from .common import SELF, self_field, config_fields
 
@@ -24,7 +25,7 @@ TE = "topk::cmsheap::TreeEntry"
 
 
 def mentions_estimate(t):
-    return contains(t, lambda s: s[0] == "call" and s[1].endswith("CountMinSketch::add"))
+    return contains(t, lambda s: s[0] == "call" and _nm(s[1], "CountMinSketch::add"))
 
 
 def run(ctx):
@@ -64,8 +65,8 @@ def run(ctx):
             if not mentions_estimate(c_last):
                 # `debug_assert!(self.obj2count.remove(&min.obj).is_some())` with min = the tree's first entry: the pairing invariant
                 # (R10-paired: tree and map hold the same keys) discharges it
-                okp = (t_last is False and c_last[0] == "call" and c_last[1].endswith("is_some") and c_last[2] and c_last[2][0][0] == "call"
-                       and c_last[2][0][1].endswith("remove") and c_last[2][0][2][0] == ("field", selfp, "obj2count")
+                okp = (t_last is False and c_last[0] == "call" and _nm(c_last[1], "is_some") and c_last[2] and c_last[2][0][0] == "call"
+                       and _nm(c_last[2][0][1], "remove") and c_last[2][0][2][0] == ("field", selfp, "obj2count")
                        and ("elem", ("field", selfp, "tree")) in subterms(c_last[2][0][2][1]))
                 ctx.check(okp, "R10-no-belief-panic", "%s:%s(structure)" % (add.key, kind), span,
                           "assertion `the evicted minimum was in the map` is the pairing invariant of R10-paired",
@@ -110,7 +111,7 @@ def heap_pairing_rules(ctx, add):
         facts = {repr(c): t for c, t in pe.path_facts(p)}
         evs = [e for e in p.events if e["kind"] == "write" and e["root"] == SELF and e["how"] != "borrow"]
         calls = [e for e in p.events if e["kind"] == "call"]
-        if not calls or not any(c["callee"].endswith("CountMinSketch::add") for c in calls[:4]):
+        if not calls or not any(_nm(c["callee"], "CountMinSketch::add") for c in calls[:4]):
             probs_fed.append("a path does not start by feeding the sketch")
         tree_ins = [e for e in evs if self_field(e) == "tree" and e.get("name") == "insert"]
         tree_rem = [e for e in evs if self_field(e) == "tree" and e.get("name") == "remove"]
@@ -223,7 +224,7 @@ def lexicographic_cmp(ctx, cmpf):
     so, oo = ("field", sp, "obj"), ("field", op_, "obj")
     tbc = TermBuilder(cmpf, prog)
     r = tbc.return_term()
-    if r[0] == "call" and r[1].endswith("then_with") and len(r[2]) == 2 and r[2][0][0] == "call" and r[2][0][1].endswith("::cmp") and r[2][0][2] == (sn, on):
+    if r[0] == "call" and _nm(r[1], "then_with") and len(r[2]) == 2 and r[2][0][0] == "call" and r[2][0][1].endswith("::cmp") and r[2][0][2] == (sn, on):
         inner = apply_closure(r[2][1], ())
         ok = inner[0] == "call" and inner[1].endswith("::cmp") and inner[2] == (so, oo)
         return ok, "then_with continues with %s" % fmt(inner)[:80]
